@@ -50,6 +50,8 @@ def flatten(out_path, flat_path, first=0):
             outs.append(o)
             w.write(json.dumps({"e": "reset", "sc": first + i + 1, "cfg": spec_cfg(o.get("config"))}) + "\n")
             for e in o["trace"]:
+                if e.get("e") == "harness-error":
+                    raise vlib.ToolError("harness error in scenario %d: %s" % (first + i + 1, e.get("text")))
                 e.pop("plan", None)
                 w.write(json.dumps(no_null(e)) + "\n")
     return outs
@@ -200,7 +202,7 @@ def report(chk, outs, iflags, pflags, claim, what=None):
                 ops = [c["op"] for c in o.get("calls", [])]
                 chk.violation("%s:%s" % ("/".join(sorted(set(ops))), f),
                               "%s in scenario %s" % ((what or {}).get(f, f), json.dumps({"calls": o.get("calls")})[:300]), brief_scenario(o))
-            elif pre in PROP_OF or f.startswith("abnormal"):
+            elif pre in PROP_OF or "abnormal" in f:
                 psc.add(sci)
                 chk.notes.append("scenario flagged for another property (%s): %s" % (f, json.dumps(o.get("calls"))[:160]))
     for sci, ev, kind, detail in iflags:
